@@ -36,15 +36,19 @@ TRUSTED = ["Model/C02_Model.v is hand-written (linked-list cells/pointers abstra
 # ---------------------------------------------------------------------------
 # tokens <-> Python objects.  No two tokens map to ==-equal objects.
 KEYS = ["a", 1, (1, 2), None, 3.5, "b", frozenset([7]), -1, "key", (), 17, "z", b"y", 99, "q", ("t", None)]
+KW0 = 16        # kwargs-capable key tokens 16..23
+ADD0 = 24       # 24..31: keys only used to enlarge an == operand
+FRESH0 = 32     # >= 32: eviction-probe keys (small histories); big histories use 100.. for ordinary keys
 VALS = [None, 10, "v1", [7], {"x": 1}, 2.5, ("t",), "a", 0, True, [], "v11", -3, (None,), "None", "one"]
 
 
 def key(tok):
+    # small tokens only: Coq's nat numerals are unary, a token like 1150 costs 1150 constructors to elaborate
     if tok < len(KEYS):
         return KEYS[tok]
-    if 100 <= tok < 200:
-        return "kw%d" % (tok - 100)          # identifier-safe: usable as **kwargs names
-    if tok >= 1000:
+    if KW0 <= tok < KW0 + 8:
+        return "kw%d" % (tok - KW0)          # identifier-safe: usable as **kwargs names
+    if tok >= FRESH0:
         return ("fresh", tok)                # eviction-probe keys
     return "k%d" % tok
 
@@ -58,11 +62,11 @@ _KINV, _VINV = {}, {}
 
 def _inv():
     if not _KINV:
-        for t in list(range(0, 500)) + list(range(1000, 1400)):
+        for t in range(0, 700):
             _KINV[repr(key(t))] = t
         for t in range(0, 400):
             _VINV[repr(val(t))] = t
-        assert len(_KINV) == 900 and len(_VINV) == 400
+        assert len(_KINV) == 700 and len(_VINV) == 400
     return _KINV, _VINV
 
 
@@ -96,12 +100,12 @@ def gen_case(rng, tier):
     if big:
         mx = 128
         nkeys = rng.choice([100, 140, 200])
-        keys = [200 + i for i in range(nkeys)]
+        keys = [FRESH0 + 300 + i for i in range(nkeys)]
         nops = rng.randint(100, 260)
     else:
         mx = rng.choice([1, 1, 2, 2, 2, 3, 3, 3, 4, 4, 5, 6, 8])
         nkeys = rng.choice([3, 4, 5, 6, 7]) if mx <= 4 else mx + rng.choice([1, 2, 4])
-        keys = rng.sample(range(len(KEYS)), min(nkeys, len(KEYS) - 2)) + [100 + rng.randrange(3)]
+        keys = rng.sample(range(len(KEYS)), min(nkeys, len(KEYS) - 2)) + [KW0 + rng.randrange(3)]
         nops = rng.randint(1, 50 if tier == "quick" else 120)
     nvals = 12
     on_miss = None
@@ -141,7 +145,7 @@ def gen_case(rng, tier):
         elif name == "update":
             kind = rng.choice(["dict", "mapping", "pairs", "gen", "iter"])
             op.update(e=_pairs(rng, keys, nvals, 0, 4, kind in ("dict", "mapping")), kind=kind,
-                      f=[[100 + t, rng.randrange(nvals)] for t in
+                      f=[[KW0 + t, rng.randrange(nvals)] for t in
                          rng.sample(range(4), rng.choice([0, 0, 0, 1, 2]))])
         elif name == "ior":
             kind = rng.choice(["dict", "dict", "pairs", "gen"])
@@ -163,11 +167,11 @@ def gen_case(rng, tier):
         ops.append(op)
         if rng.random() < 0.03 and not big:         # eviction probe in the middle of the history
             for t in range(mx):
-                ops.append({"op": "set", "i": i, "k": 1200 + 10 * len(ops) % 190 + t, "v": v})
+                ops.append({"op": "set", "i": i, "k": FRESH0 + 30 + (len(ops) * 7) % 36, "v": v})
     # eviction probe at the end on every cache: the order in which old keys vanish is the recency order
     for ci in range(ncaches):
         for t in range(mx):
-            ops.append({"op": "set", "i": ci, "k": 1000 + 150 * ci + t, "v": rng.randrange(nvals)})
+            ops.append({"op": "set", "i": ci, "k": FRESH0 + (8 if mx <= 8 else 130) * ci + t, "v": rng.randrange(nvals)})
     full = "all" if mx <= 8 else "sparse"
     return {"cls": rng.choice(["LRI", "LRU", "LRU"]), "max": mx, "on_miss": on_miss, "init": init,
             "init_kind": init_kind, "full": full, "ops": ops}
@@ -231,7 +235,7 @@ def _eq_operand(op, c):
         j = op["pick"] % len(cur)
         d = cur[:j] + cur[j + 1:]
     else:  # add
-        d = cur + [(250 + op["pick"], 1)]
+        d = cur + [(ADD0 + op["pick"] % 8, 1)]
     if op["pick"] % 2:
         d = list(reversed(d))
     return d
